@@ -92,7 +92,11 @@ func C14BadNotation() {
 	vrt.SlotText("bad", "M1")
 	// interface-level and method-level candidates are explored separately
 	vrt.Assume(n1 == "" || i1 == "")
-	rejected := badHarness("bad", 2)
+	rejected := badHarness("bad", 3)
+	// a malformed interface-level notation fails the run (whatever other converter interfaces the file has)
+	if i1 == ":style" || i1 == ":style foo" || i1 == ":match x" {
+		vrt.AssertMsg("malformed-interface-notation-is-rejected", rejected, i1)
+	}
 	if i1 == "" && vrt.SlotText("bad", "M1") == "" {
 		if inList(mustReject, n1) && !(n1 == ":reverse" && vrt.SlotText("bad", "N2") == ":style arg") {
 			vrt.AssertMsg("documented-unusable-shape-is-rejected", rejected, n1)
